@@ -177,6 +177,7 @@ func collectIDs(defs *schema.Definitions) []idOcc {
 //     outgoing flow, every incoming/outgoing entry names a flow of the process that really ends/starts
 //     there, and the graph is the single chain start -> activities in insertion order -> end with
 //     the activity ids and types the caller added.
+//   - "with ... preset ids": an activity added with a preset id keeps it (it is "the added activity").
 //   - README "If multiple processes are added, participants are generated under one collaboration":
 //     one collaboration whose participants reference the processes one-to-one (k >= 2).
 //
@@ -233,6 +234,9 @@ func checkDefs(emit sink, defs *schema.Definitions, b *Built, wantProcs int) (in
 				if id == "" {
 					emit("C19/builder/missing-id", fmt.Sprintf("process %d: AddActivity #%d left the activity without id", pi, j))
 					continue
+				}
+				if pi < len(b.Want) && b.Want[pi][j] != "" && id != b.Want[pi][j] {
+					emit("C19/builder/preset-id-changed", fmt.Sprintf("process %d: AddActivity #%d replaced the id preset by the caller", pi, j))
 				}
 				if _, ok := p.nodeIdx[id]; !ok {
 					dropped[id] = true
@@ -487,13 +491,13 @@ func checkRoundTrip(emit sink, defs *schema.Definitions, orig []procInfo) {
 		emit("C19/builder/roundtrip/process-count", fmt.Sprintf("%d processes before, %d after", len(orig), len(got)))
 		return
 	}
-	str := func(p, q *string) string {
+	str := func(p *string) string {
 		if p == nil {
 			return "<nil>"
 		}
 		return *p
 	}
-	if str(defs.IdField, nil) != str(back.IdField, nil) {
+	if str(defs.IdField) != str(back.IdField) {
 		emit("C19/builder/roundtrip/definitions-id", "definitions id changed")
 	}
 	for pi := range orig {
@@ -781,10 +785,4 @@ func checkLayout(emit sink, defs *schema.Definitions, info []procInfo, cfg *Layo
 			}
 		}
 	}
-}
-
-// overlapPremise reports whether cfg satisfies the non-overlap premise for a definitions whose
-// widest/tallest node sizes are (maxW,maxH); used for counting how often the clause is exercised.
-func overlapPremise(cfg Layout, maxW, maxH float64) bool {
-	return cfg.ColumnGap >= maxW && cfg.RowGap >= maxH && cfg.ProcessGap >= maxH
 }
